@@ -300,7 +300,8 @@ ASMJIT_FAVOR_SIZE Error init_func_detail(FuncDetail& func, const FuncSignature& 
 
         case TypeId::kFloat32:
         case TypeId::kFloat64: {
-          RegType reg_type = Environment::is_32bit(arch) ? RegType::kX86_St : RegType::kVec128;
+          // 32-bit conventions return floats in ST0 unless they pass floats in vector registers (__vectorcall returns in XMM0).
+          RegType reg_type = Environment::is_32bit(arch) && !cc.has_flag(CallConvFlags::kPassFloatsByVec) ? RegType::kX86_St : RegType::kVec128;
           func._rets[value_index].init_reg(reg_type, value_index, type_id);
           break;
         }
